@@ -2509,3 +2509,64 @@ Proof.
   eexists. eexists. eexists. exists [(3, [65001; 65009; 65009; 65010]); (2, [65002; 65003]); (1, [64512; 64513])].
   split; [vm_compute; reflexivity|]. split; [left; reflexivity|]. split; reflexivity.
 Qed.
+
+(* ================================================================ the receive side, both directions *)
+Lemma be32_injective : forall a b, a < 4294967296 -> b < 4294967296 -> be32 a = be32 b -> a = b.
+Proof.
+  intros a b Ha Hb E. rewrite <- (rd32_be32 a Ha), <- (rd32_be32 b Hb).
+  unfold be32 in E. inversion E as [[E1 E2 E3 E4]]. rewrite E1, E2, E3, E4. reflexivity.
+Qed.
+
+Lemma chunks4_any_In_rev : forall c ids f,
+  c < 4294967296 -> Forall (fun i => i < 4294967296) ids ->
+  chunks4_any f (be32 c) (flat_map be32 ids) = true -> In c ids.
+Proof.
+  intros c. induction ids as [|i ids IH]; intros f Hc Hall H.
+  - destruct f; discriminate.
+  - destruct f as [|f]; [discriminate|]. inversion Hall as [|? ? Hi Hrest]; subst.
+    cbn [flat_map] in H.
+    change (be32 i ++ flat_map be32 ids) with
+      ((i / 16777216) mod 256 :: (i / 65536) mod 256 :: (i / 256) mod 256 :: i mod 256 :: flat_map be32 ids) in H.
+    cbn [chunks4_any firstn skipn] in H. apply orb_true_iff in H. destruct H as [H|H].
+    + left. apply bytes_eqb_eq in H. apply be32_injective; auto.
+    + right. exact (IH f Hc Hrest H).
+Qed.
+
+(* (4, converse) a route that is none of the four loops IS handed to insert_route, with
+   LOCAL_PREF defaulted on iBGP sessions: the drops of the receive path are exactly the loops *)
+Theorem C09_loop_free_installed : forall x rid cid attrs pin,
+  path_of attrs pin ->
+  (forall a, find_code ORIGINATOR_ID attrs = Some a -> exists v, a_data a = DVal v) ->
+  (forall a c, cid = Some c -> find_code CLUSTER_LIST attrs = Some a ->
+     c < 4294967296 /\ exists ids, binary a = Some (cluster_list_bytes ids) /\ Forall (fun i => i < 4294967296) ids) ->
+  ~ looped x rid cid attrs ->
+  rx_reach x rid cid attrs = Ok (Some (rx_attrs x attrs)).
+Proof.
+  intros x rid cid attrs pin Hpin Ho Hc Hnl. unfold rx_reach, rx_attrs.
+  assert (Hloop : is_as_loop attrs (x_lasn x) (x_confed x) = Ok false).
+  { unfold is_as_loop. destruct pin as [segs|]; cbn [path_of] in Hpin.
+    - destruct Hpin as (a & Ea & Hp). rewrite Ea.
+      destruct (as_path_has_spec a segs (x_lasn x) Hp) as (b1 & E1 & H1). rewrite E1. cbn [rbind].
+      destruct b1.
+      + exfalso. apply Hnl. eapply LoopAs; [exists a; eauto | apply H1; reflexivity].
+      + destruct (x_confed x =? 0) eqn:Ez; cbn [negb andb]; [reflexivity|].
+        destruct (x_confed x =? x_lasn x); cbn [negb]; [reflexivity|].
+        destruct (as_path_has_spec a segs (x_confed x) Hp) as (b2 & E2 & H2). rewrite E2.
+        destruct b2; [|reflexivity]. exfalso. apply Hnl.
+        eapply LoopConfed; [exists a; eauto | apply N.eqb_neq; exact Ez | apply H2; reflexivity].
+    - rewrite Hpin. reflexivity. }
+  rewrite Hloop. cbn [rbind].
+  assert (Hdrop : rr_loop_drop attrs rid cid = false).
+  { unfold rr_loop_drop. apply orb_false_iff. split.
+    - destruct (find_code ORIGINATOR_ID attrs) as [a|] eqn:Ea; [|reflexivity].
+      destruct (Ho a eq_refl) as [v Hv]. unfold value. rewrite Hv.
+      destruct (v =? rid) eqn:Ev; [|reflexivity]. apply N.eqb_eq in Ev. subst v.
+      exfalso. apply Hnl. eapply LoopOriginator; eauto.
+    - destruct cid as [c|]; [|reflexivity].
+      destruct (find_code CLUSTER_LIST attrs) as [a|] eqn:Ea; [|reflexivity].
+      destruct (Hc a c eq_refl eq_refl) as (Hcl & ids & Hb & Hall). rewrite Hb.
+      destruct (chunks4_contains (be32 c) (cluster_list_bytes ids)) eqn:Ec; [|reflexivity].
+      exfalso. apply Hnl. eapply (LoopCluster _ _ _ _ a c ids); eauto.
+      unfold chunks4_contains, cluster_list_bytes in Ec. eapply chunks4_any_In_rev; eauto. }
+  rewrite Hdrop. reflexivity.
+Qed.
